@@ -457,6 +457,58 @@ pub fn run(ctx: &Ctx) -> Report {
         }
     }
     total.merge(st);
+    // 48 threads parsing groups nested to the bound at the same moment: the verdict on one thread
+    // must not depend on what other threads are parsing (budgets or flags shared between threads)
+    let mut st = Stats::new();
+    {
+        let nthreads = 48usize;
+        let rounds = ctx.tier.pick(60usize, 600usize);
+        let barrier = std::sync::Arc::new(std::sync::Barrier::new(nthreads));
+        let mut handles = vec![];
+        for k in 0..nthreads {
+            let barrier = barrier.clone();
+            let h = std::thread::Builder::new().stack_size(256 << 20).spawn(move || {
+                let depth = 64 - (k % 3);
+                let mut ws = vec![];
+                for i in 0..depth {
+                    ws.push(if k % 2 == 0 || i % 2 == 0 { W::LP } else { W::Not });
+                }
+                ws.push(W::Prim(E::T(Tst::Name("x".into()))));
+                let opened = ws.iter().filter(|w| matches!(w, W::LP)).count();
+                ws.extend(vec![W::RP; opened]);
+                ws.extend([W::Or(false), W::Prim(E::A(Act::Print))]);
+                barrier.wait();
+                let mut bad = None;
+                for r in 0..rounds {
+                    if let Verdict::Fail(m) = judge_words(&ws) {
+                        bad = Some(format!("thread {k} of {nthreads}, round {r} (all threads parse {depth}-deep groups at once; alone the same text parses correctly): {m}"));
+                        break;
+                    }
+                }
+                (ws, bad)
+            });
+            match h {
+                Ok(h) => handles.push(h),
+                Err(e) => st.oracle_bugs.push(format!("cannot start a parser thread: {e}")),
+            }
+        }
+        for (k, h) in handles.into_iter().enumerate() {
+            match h.join() {
+                Ok((ws, bad)) => {
+                    // alone, afterwards, as the control
+                    let alone = judge_words(&ws);
+                    let v = match (bad, alone) {
+                        (_, Verdict::Fail(m)) => Verdict::Fail(m),
+                        (Some(m), _) => Verdict::Fail(m),
+                        (None, _) => Verdict::Pass { nt: true, class: "groups nested to the bound, parsed by 48 threads at once" },
+                    };
+                    st.record(&v, stable_hash(&(k, "concurrent-nesting")), true, || json!({"kind": "words", "text": format!("thread {k}: nested groups parsed concurrently"), "words": ws.iter().map(word_text).collect::<Vec<_>>()}));
+                }
+                Err(_) => st.oracle_bugs.push(format!("parser thread {k} died")),
+            }
+        }
+    }
+    total.merge(st);
     // coverage-guided part: replay of the committed corpus (quick), libFuzzer campaign (thorough)
     crate::fuzzrun::replay_corpus("grammar", &mut total);
     if ctx.tier == Tier::Thorough && ctx.part.is_none() {
